@@ -191,7 +191,8 @@ def main(tier):
                "non-trivial = real encoder ran under symbolic ids and its obligations were generated" % (maxn, "40" if big else "2n+3"))
     ck.exhaustive = False
     run_plan(ck, plan, budget_ms(tier), native_limit=7 if not big else 9, prop_prefix="C10.")
-    run_wp(ck, ["int_to_binary"], budget_ms(tier), prefix="C10.")
+    # int_to_binary, and assert_k_of_n for EVERY n and k (pop_count by contract): under the definitional clauses the asserted units hold iff exactly k inputs are true
+    run_wp(ck, ["int_to_binary", "assert_k_of_n"], budget_ms(tier), prefix="C10.")
     dispatch_checks(ck, tier)
     int_to_binary_native(ck, tier)
     ck.trust("z3 / cvc5", "pycryptosat (native replay, dispatch check)", "CPython semantics of the executed encoder code")
